@@ -704,6 +704,15 @@ func descLevel(info *types.Info, cf *cfgx.Func, params map[types.Object]bool, e 
 // mapLookupOK matches a fact (ok, truth) where ok comes from `_, ok := M[k]` and
 // returns M and k.
 func mapLookupOf(info *types.Info, cf *cfgx.Func, e ast.Expr) (m, k ast.Expr, found bool) {
+	// a lookup handed over by a helper's summary: the index expression itself
+	if ix, ok := ast.Unparen(e).(*ast.IndexExpr); ok {
+		if t := info.TypeOf(ix.X); t != nil {
+			if _, isMap := t.Underlying().(*types.Map); isMap {
+				return ix.X, ix.Index, true
+			}
+		}
+		return nil, nil, false
+	}
 	id, ok := ast.Unparen(e).(*ast.Ident)
 	if !ok {
 		return nil, nil, false
@@ -992,6 +1001,35 @@ func isRemoveAt(info *types.Info, st ast.Stmt, i types.Object, bound ast.Expr) b
 	return ok && cfgx.SameExpr(info, lenOf, as.Lhs[0])
 }
 
+// isRemoval: S = append(S[:i], S[i+1:]...) for any index expression i.
+func isRemoval(info *types.Info, as *ast.AssignStmt) bool {
+	if len(as.Lhs) != 1 || len(as.Rhs) != 1 {
+		return false
+	}
+	call, ok := ast.Unparen(as.Rhs[0]).(*ast.CallExpr)
+	if !ok || len(call.Args) != 2 || !call.Ellipsis.IsValid() {
+		return false
+	}
+	if id, ok := call.Fun.(*ast.Ident); !ok || id.Name != "append" {
+		return false
+	}
+	s1, ok1 := ast.Unparen(call.Args[0]).(*ast.SliceExpr)
+	s2, ok2 := ast.Unparen(call.Args[1]).(*ast.SliceExpr)
+	if !ok1 || !ok2 || !cfgx.SameExpr(info, s1.X, as.Lhs[0]) || !cfgx.SameExpr(info, s2.X, as.Lhs[0]) {
+		return false
+	}
+	if s1.Low != nil || s1.High == nil || s2.High != nil || s2.Low == nil {
+		return false
+	}
+	// S[i+1:] with the same i as S[:i]
+	be, ok := ast.Unparen(s2.Low).(*ast.BinaryExpr)
+	if !ok || be.Op != token.ADD || !cfgx.SameExpr(info, be.X, s1.High) {
+		return false
+	}
+	tv, ok := info.Types[be.Y]
+	return ok && tv.Value != nil && tv.Value.ExactString() == "1"
+}
+
 // loopProgress: every path around the loop executes a progress statement.
 func (c *Ctx) loopProgress(pk *pkgT, cf *cfgx.Func, fs *ast.ForStmt, next, stackPop *types.Func) (bool, string) {
 	info := pk.TypesInfo
@@ -1008,12 +1046,17 @@ func (c *Ctx) loopProgress(pk *pkgT, cf *cfgx.Func, fs *ast.ForStmt, next, stack
 			case *ast.AssignStmt:
 				if len(s.Lhs) == 1 && len(s.Rhs) == 1 && s.Tok == token.ASSIGN {
 					l, r := s.Lhs[0], ast.Unparen(s.Rhs[0])
-					// X = X.f   (pointer chain)
-					if sel, ok := r.(*ast.SelectorExpr); ok && cfgx.SameExpr(info, sel.X, l) {
+					// X = X.f   (pointer chain; X may be read through a per-iteration alias)
+					if sel, ok := r.(*ast.SelectorExpr); ok && (cfgx.SameExpr(info, sel.X, l) || cf.SameResolved(sel.X, l)) {
 						if v, ok := info.ObjectOf(sel.Sel).(*types.Var); ok && v.IsField() {
 							kinds["pointer-chain walk "+types.ExprString(l)+"="+types.ExprString(r)] = true
 							res = true
 						}
+					}
+					// S = append(S[:i], S[i+1:]...)  (removal: len(S) decreases)
+					if isRemoval(info, s) {
+						kinds["element removal from "+types.ExprString(l)] = true
+						res = true
 					}
 					// v = v[1:] / v = v[:len(v)-1]
 					if sl, ok := r.(*ast.SliceExpr); ok && cfgx.SameExpr(info, sl.X, l) {
@@ -1038,6 +1081,17 @@ func (c *Ctx) loopProgress(pk *pkgT, cf *cfgx.Func, fs *ast.ForStmt, next, stack
 				res = true
 			case *ast.CallExpr:
 				callee := Callee(info, s)
+				// a helper whose body unconditionally removes an element of a slice field
+				if callee != nil {
+					if hd := c.P.Decl(callee); hd != nil && c.P.PkgOfDecl(hd) == pk {
+						for _, st := range hd.Body.List {
+							if as, ok := st.(*ast.AssignStmt); ok && isRemoval(info, as) {
+								kinds["element removal via "+callee.Name()+"()"] = true
+								res = true
+							}
+						}
+					}
+				}
 				if callee != nil && next != nil && callee == next {
 					kinds["lexeme worklist: Scanner.Next() (bounded by S1e)"] = true
 					res = true
